@@ -34,6 +34,7 @@ type Node struct {
 	jump       int64
 	stallUntil int64
 	special    bool // pair runs: traffic to/from this node draws from SSpecial
+	neverBoot  bool // pair runs: the special node is silent (never started)
 
 	subscribed      bool
 	st              *Step
@@ -69,6 +70,14 @@ func (n *Node) String() string {
 // whose identity equivocates by construction (each brain receives its
 // sibling's payloads under its own validator index).
 func (n *Node) judged() bool { return n.kind != FSplit }
+
+// stream maps a draw that concerns this node to the special stream in pair runs.
+func (n *Node) stream(st Stream) Stream {
+	if n.special {
+		return SSpecial
+	}
+	return st
+}
 
 func (n *Node) tip() *Block { return n.ledger[len(n.ledger)-1] }
 
@@ -272,6 +281,7 @@ func (n *Node) call(st *Step, fn func()) {
 		o.BeforeCall(n, st)
 	}
 	n.st = st
+	s.cur = n
 	func() {
 		defer func() {
 			if r := recover(); r != nil {
@@ -288,6 +298,7 @@ func (n *Node) call(st *Step, fn func()) {
 		fn()
 	}()
 	n.st = nil
+	s.cur = nil
 	if n.d != nil {
 		st.PostBI, st.PostV = n.d.BlockIndex, n.d.ViewNumber
 	}
@@ -315,8 +326,8 @@ func (n *Node) call(st *Step, fn func()) {
 	}
 	n.crashAfterSends = -1
 	n.crashInProcess = 0
-	if s.sc.StallPM > 0 && !s.postGST() && s.tape.Chance(SFault, s.sc.StallPM, 1000) {
-		n.stallUntil = s.now + s.tape.Range(SFault, 1, 12)*int64(s.sc.TPB)/4
+	if s.sc.StallPM > 0 && !s.postGST() && s.tape.Chance(n.stream(SFault), s.sc.StallPM, 1000) {
+		n.stallUntil = s.now + s.tape.Range(n.stream(SFault), 1, 12)*int64(s.sc.TPB)/4
 		s.fault("stall")
 	}
 	s.sampleState(n)
@@ -520,19 +531,19 @@ func (n *Node) options() []func(*dbft.Config[Hash]) {
 				n.facts.anyEarly = true
 				s.probe("early_commit_before_header")
 			}
-			if sc.VerdictPM > 0 && s.tape.Chance(SApp, sc.VerdictPM, 1000) {
+			if sc.VerdictPM > 0 && s.tape.Chance(n.stream(SApp), sc.VerdictPM, 1000) {
 				return errProc
 			}
 			return nil
 		}),
 		dbft.WithVerifyPrepareRequest[Hash](func(dbft.ConsensusPayload[Hash]) error {
-			if sc.VerdictPM > 0 && s.tape.Chance(SApp, sc.VerdictPM, 1000) {
+			if sc.VerdictPM > 0 && s.tape.Chance(n.stream(SApp), sc.VerdictPM, 1000) {
 				return errProc
 			}
 			return nil
 		}),
 		dbft.WithVerifyPrepareResponse[Hash](func(dbft.ConsensusPayload[Hash]) error {
-			if sc.VerdictPM > 0 && s.tape.Chance(SApp, sc.VerdictPM, 1000) {
+			if sc.VerdictPM > 0 && s.tape.Chance(n.stream(SApp), sc.VerdictPM, 1000) {
 				return errProc
 			}
 			return nil
@@ -618,13 +629,13 @@ func (n *Node) cbRequestTx(hs ...Hash) {
 		var d int64
 		if s.sc.Family == "sync" || s.postGST() {
 			// fault-free application: every requested transaction is supplied within delta
-			d = 1 + s.tape.Range(SApp, 0, s.sc.Delta-1)
+			d = 1 + s.tape.Range(n.stream(SApp), 0, s.sc.Delta-1)
 		} else {
-			if s.tape.Chance(SApp, 1, 12) {
+			if s.tape.Chance(n.stream(SApp), 1, 12) {
 				s.fault("requested_tx_never_supplied")
 				continue
 			}
-			d = s.sc.LatBase*(1+4*s.sc.SupplySlow) + s.tape.Range(SApp, 0, 16)*s.sc.LatBase/2
+			d = s.sc.LatBase*(1+4*s.sc.SupplySlow) + s.tape.Range(n.stream(SApp), 0, 16)*s.sc.LatBase/2
 		}
 		s.after(d, &Event{Kind: EvTxSupply, Node: n.id, Inc: n.inc, Tx: tx})
 	}
@@ -666,7 +677,7 @@ func (n *Node) noteSetData(b *PreBlock) { n.out(Out{Kind: OSetData, Hdr: &b.Head
 func (n *Node) cbProcessPreBlock(b dbft.PreBlock[Hash]) error {
 	s := n.s
 	bb := b.(*PreBlock)
-	fail := s.sc.ProcErrPM > 0 && s.tape.Chance(SApp, s.sc.ProcErrPM, 1000)
+	fail := s.sc.ProcErrPM > 0 && s.tape.Chance(n.stream(SApp), s.sc.ProcErrPM, 1000)
 	n.out(Out{Kind: OProcessPreBlock, Hdr: &bb.Header, Hash: bb.preHash(), OK: !fail})
 	if fail {
 		s.fault("process_preblock_error")
@@ -681,7 +692,7 @@ func (n *Node) cbProcessBlock(b dbft.Block[Hash]) error {
 	bb := b.(*Block)
 	n.lastBlockObj = bb
 	fail := false
-	if s.sc.amevAt(bb.Idx) && s.sc.ProcErrPM > 0 && s.tape.Chance(SApp, s.sc.ProcErrPM, 1000) {
+	if s.sc.amevAt(bb.Idx) && s.sc.ProcErrPM > 0 && s.tape.Chance(n.stream(SApp), s.sc.ProcErrPM, 1000) {
 		fail = true
 	}
 	if n.crashInProcess == 1 { // crash before the block is persisted
@@ -714,7 +725,7 @@ func (n *Node) appendBlock(b *Block) bool {
 	for _, h := range b.TxHashes {
 		delete(n.pool, h)
 	}
-	if n.honest && cp.Idx > n.s.st.MaxHeight {
+	if n.honest && !n.special && cp.Idx > n.s.st.MaxHeight {
 		n.s.st.MaxHeight = cp.Idx
 		if n.s.heightFn != nil {
 			n.s.heightFn(cp.Idx)
